@@ -7,6 +7,7 @@ package main
 // written from their documentation (see libTransfer).
 
 import (
+	"strconv"
 	"fmt"
 	"go/constant"
 	"go/token"
@@ -35,6 +36,9 @@ type fval struct {
 	iter *foldIter
 	// values captured by a closure (fn is the closure's function)
 	bind []fval
+	// a non-nil error value; errID distinguishes values made by different errors.New / failing library calls (0 = unknown identity)
+	nonNil bool
+	errID  int
 }
 
 type foldIter struct {
@@ -48,7 +52,7 @@ type faddr struct {
 }
 
 func (v fval) known() bool {
-	return v.k != nil || v.fn != nil || v.isNil || v.tuple != nil || v.fields != nil || v.addr != nil || v.cv != nil || v.cvptr != nil || v.iter != nil
+	return v.k != nil || v.fn != nil || v.isNil || v.tuple != nil || v.fields != nil || v.addr != nil || v.cv != nil || v.cvptr != nil || v.iter != nil || v.nonNil
 }
 
 // structFval builds a struct value from a nested path map, e.g. {"Rat.Num": 0}.
@@ -508,11 +512,16 @@ func (f *folder) evalInstr(env map[ssa.Value]fval, mem map[*ssa.Alloc]fval, in s
 					okAll := cur.fields != nil
 					for i := int64(0); okAll && i < at.Len(); i++ {
 						e, has := cur.fields[fmt.Sprintf("#%d", i)]
-						if !has || e.k == nil {
+						if !has {
 							okAll = false
 							break
 						}
-						lv.Elems = append(lv.Elems, &CVal{V: e.k, T: at.Elem(), c: f.c})
+						ev, ok := toVal(e, at.Elem(), f.c)
+						if !ok {
+							okAll = false
+							break
+						}
+						lv.Elems = append(lv.Elems, ev)
 					}
 					if okAll {
 						env[x] = fval{cv: lv, t: x.Type()}
@@ -602,6 +611,19 @@ func (f *folder) val(env map[ssa.Value]fval, v ssa.Value) fval {
 }
 
 func foldBinOp(op token.Token, a, b fval, t types.Type) fval {
+	// comparisons of a value known to be nil / known to be non-nil with nil
+	if (op == token.EQL || op == token.NEQ) && a.k == nil && b.k == nil {
+		an, bn := a.isNil, b.isNil
+		ann, bnn := a.nonNil, b.nonNil
+		if (an || ann) && (bn || bnn) && (an || bn) {
+			eq := an && bn
+			if op == token.NEQ {
+				eq = !eq
+			}
+			return fval{k: constant.MakeBool(eq), t: t}
+		}
+		return top
+	}
 	// short cuts that hold whatever the unknown side is
 	if a.k == nil || b.k == nil {
 		return top
@@ -715,6 +737,63 @@ func libTransfer(fn *ssa.Function, args []fval) (fval, error) {
 	case "strings.IndexRune":
 		if r, ok := argInt(1); ok && r < 0 {
 			return fval{k: constant.MakeInt64(-1), t: types.Typ[types.Int]}, nil
+		}
+	case "errors.New":
+		nextErrID++
+		return fval{nonNil: true, errID: nextErrID}, nil
+	case "errors.Is":
+		// doc: Is reports whether any error in err's tree matches target; folded only for plain (unwrapped) values of known identity
+		if len(args) == 2 {
+			if args[0].isNil {
+				return fval{k: constant.MakeBool(false), t: boolT}, nil
+			}
+			if args[0].nonNil && args[1].nonNil && args[0].errID != 0 && args[1].errID != 0 {
+				return fval{k: constant.MakeBool(args[0].errID == args[1].errID), t: boolT}, nil
+			}
+		}
+	case "strings.Contains", "strings.HasPrefix", "strings.HasSuffix":
+		if a, b, ok := twoStrings(args); ok {
+			var r bool
+			switch name {
+			case "strings.Contains":
+				r = strings.Contains(a, b)
+			case "strings.HasPrefix":
+				r = strings.HasPrefix(a, b)
+			default:
+				r = strings.HasSuffix(a, b)
+			}
+			return fval{k: constant.MakeBool(r), t: boolT}, nil
+		}
+	case "strings.Trim", "strings.TrimLeft", "strings.TrimRight", "strings.TrimPrefix", "strings.TrimSuffix":
+		if a, b, ok := twoStrings(args); ok {
+			var r string
+			switch name {
+			case "strings.Trim":
+				r = strings.Trim(a, b)
+			case "strings.TrimLeft":
+				r = strings.TrimLeft(a, b)
+			case "strings.TrimRight":
+				r = strings.TrimRight(a, b)
+			case "strings.TrimPrefix":
+				r = strings.TrimPrefix(a, b)
+			default:
+				r = strings.TrimSuffix(a, b)
+			}
+			return fval{k: constant.MakeString(r), t: types.Typ[types.String]}, nil
+		}
+	case "strconv.ParseUint":
+		// doc: ParseUint(s, base, bitSize); a failure yields a non-nil *NumError
+		if len(args) == 3 && args[0].k != nil && args[0].k.Kind() == constant.String {
+			base, ok1 := argInt(1)
+			bits, ok2 := argInt(2)
+			if ok1 && ok2 {
+				n, err := strconv.ParseUint(constant.StringVal(args[0].k), int(base), int(bits))
+				if err != nil {
+					nextErrID++
+					return fval{tuple: []fval{{k: constant.MakeUint64(0), t: types.Typ[types.Uint64]}, {nonNil: true, errID: nextErrID}}}, nil
+				}
+				return fval{tuple: []fval{{k: constant.MakeUint64(n), t: types.Typ[types.Uint64]}, {isNil: true}}}, nil
+			}
 		}
 	case "strings.Join":
 		// doc: Join concatenates the elements of its first argument to create a single string, sep between elements.
@@ -1079,4 +1158,44 @@ func (c *Ctx) foldInitCall(g *ssa.Global, obj *types.Var) (fval, bool) {
 		return top, false
 	}
 	return result, true
+}
+
+
+var nextErrID int
+
+func twoStrings(args []fval) (string, string, bool) {
+	if len(args) != 2 || args[0].k == nil || args[1].k == nil || args[0].k.Kind() != constant.String || args[1].k.Kind() != constant.String {
+		return "", "", false
+	}
+	return constant.StringVal(args[0].k), constant.StringVal(args[1].k), true
+}
+
+
+// toVal converts a fully known folder value (a constant, or a struct of such) into a table value.
+func toVal(v fval, t types.Type, c *Ctx) (Val, bool) {
+	if v.k != nil {
+		return &CVal{V: v.k, T: t, c: c}, true
+	}
+	if v.fields != nil {
+		st, ok := t.Underlying().(*types.Struct)
+		if !ok {
+			return nil, false
+		}
+		sv := &StructV{T: t, Fields: map[string]Val{}}
+		for i := 0; i < st.NumFields(); i++ {
+			n := st.Field(i).Name()
+			fv, has := v.fields[n]
+			if !has {
+				fv = zeroFval(st.Field(i).Type())
+			}
+			x, ok := toVal(fv, st.Field(i).Type(), c)
+			if !ok {
+				return nil, false
+			}
+			sv.Fields[n] = x
+			sv.Order = append(sv.Order, n)
+		}
+		return sv, true
+	}
+	return nil, false
 }
